@@ -768,6 +768,17 @@ func (d *DataChannel) collectStats(collector *statsReportCollector) {
 	collector.Collect(stats.ID, stats)
 }
 
+// setReadyState moves the ready state forward to r. The state only ever
+// advances along connecting -> open -> closing -> closed: a store that would
+// move it backwards (for example handleOpen racing with Close) is dropped.
 func (d *DataChannel) setReadyState(r DataChannelState) {
-	d.readyState.Store(r)
+	for {
+		current := d.readyState.Load()
+		if state, ok := current.(DataChannelState); ok && state >= r {
+			return
+		}
+		if d.readyState.CompareAndSwap(current, r) {
+			return
+		}
+	}
 }
